@@ -80,9 +80,9 @@ def check_proc(a: ATS, pid: str, rule: str, proc: Proc, ev: Evidence, out: list[
     n_choice = 0
 
     def rep(k: str, ok: bool, e: Any, msg: str, site: str = "") -> None:
-        if k in seen:
-            return
-        seen.add(k)
+        if (k, ok) in seen:
+            return  # an earlier ok never masks a violation of the same key
+        seen.add((k, ok))
         ev.inst(rule, f"{proc.name} | {k}", "ok" if ok else "violation", site)
         if not ok:
             out.append(Finding(rule, f"{proc.which} handler | {proc.name} | {k}", f"{proc.name}: {msg}", site, witness_of(a, e)))
@@ -140,7 +140,9 @@ def check_proc(a: ATS, pid: str, rule: str, proc: Proc, ev: Evidence, out: list[
                 if isinstance(k, tuple) and len(k) == 3 and k[0] in ("ge", "eq0") and proc.limit in repr(k[1]):
                     t = threshold_of(k, v, proc)
                     rel.append((k, v, t))
-            fault = any(x.kind == "env" and x.name.startswith("fault.") and ename(x.args[1]) == proc.fault for x in evs)
+            # the declaration: a fault callback with the procedure's condition, or - while a cancellation is already in progress -
+            # the abandonment callback (the handlers report the original cancel condition there)
+            fault = any(x.kind == "env" and x.name.startswith("fault.") and (ename(x.args[1]) == proc.fault or x.name == "fault.abandoned_cb") for x in evs)
             for k, v, t in rel:
                 n_choice += 1
                 if t is None:
